@@ -1307,7 +1307,9 @@ class _AlwaysSortable(object):
         self.value = value
 
     def sortable_value(self):
-        return (str(type(self)), id(self))
+        # Mutually incomparable values are grouped by the name of their
+        # type; within a type the (stable) sort keeps insertion order.
+        return str(type(self.value))
 
     def __lt__(self, other):
         try:
